@@ -77,6 +77,59 @@ fn main() {
             let runs = args.get(3).and_then(|s| s.parse().ok()).unwrap_or(200);
             selfcheck::determinism(seed_from_env(), runs, &args)
         }
+        "rate" => {
+            // sim rate <ID> <runs> [tier]: how often does the check fail per strategy (no early stop, no
+            // minimisation) - a benchmark for tuning the search against a deliberately broken tree
+            if args.len() < 4 {
+                usage();
+            }
+            hook::ensure_installed();
+            let check = args[2].clone();
+            let runs: u64 = args[3].parse().unwrap();
+            let tier = if args.get(4).map(|s| s.as_str()) == Some("thorough") { Tier::Thorough } else { Tier::Quick };
+            let seed = seed_from_env();
+            let tally = std::sync::Mutex::new(std::collections::BTreeMap::<(u8, String), (u64, u64)>::new());
+            let first = std::sync::Mutex::new(Vec::<(u64, String)>::new());
+            let case = |idx: u64| {
+                let plan = checks::plan_pipeline_case(&check, tier, seed, idx);
+                let r = checks::pipeline_case_record(&check, tier, seed, idx);
+                let mut t = tally.lock().unwrap();
+                let e = t.entry((plan.sched.strategy, plan.group.to_string())).or_insert((0, 0));
+                e.0 += 1;
+                if !r.findings.is_empty() {
+                    e.1 += 1;
+                    let mut f = first.lock().unwrap();
+                    if f.len() < 2000 {
+                        f.push((idx, r.findings[0].class.clone()));
+                    }
+                }
+                r
+            };
+            let (_agg, wall) = batch::run_batch(runs, checks::jobs(), usize::MAX, None, &case);
+            let t = tally.into_inner().unwrap();
+            let mut by_strategy = std::collections::BTreeMap::<u8, (u64, u64)>::new();
+            let mut by_group = std::collections::BTreeMap::<String, (u64, u64)>::new();
+            for ((st, g), (n, h)) in &t {
+                let e = by_strategy.entry(*st).or_insert((0, 0));
+                e.0 += n;
+                e.1 += h;
+                let e = by_group.entry(g.clone()).or_insert((0, 0));
+                e.0 += n;
+                e.1 += h;
+            }
+            let total: u64 = by_strategy.values().map(|v| v.1).sum();
+            println!("rate {check}: {runs} runs in {wall:.1}s, {total} failing cases");
+            for (st, (n, h)) in &by_strategy {
+                println!("  strategy {st}: {h}/{n}");
+            }
+            for (g, (n, h)) in &by_group {
+                println!("  group {g}: {h}/{n}");
+            }
+            let mut f = first.into_inner().unwrap();
+            f.sort();
+            println!("  first failing cases: {:?}", f.iter().take(8).collect::<Vec<_>>());
+            0
+        }
         "case" | "gen" => {
             if args.len() < 5 {
                 usage();
